@@ -134,6 +134,99 @@ def rand_index(rng, hardened=None):
     return v
 
 
+def hmac512_stream(key, prefix=b""):
+    """HMAC-SHA512 under a fixed key of messages `prefix || suffix`, with the two pad blocks and the prefix hashed once (hashlib only): the
+    directed searches below try 10^5 suffixes per hit, which the one-shot hmac call makes three times slower.  Returns suffix -> 64 bytes."""
+    import hashlib
+    if len(key) > 128:
+        key = hashlib.sha512(key).digest()
+    blk = key.ljust(128, b"\x00")
+    inner = hashlib.sha512(bytes(b ^ 0x36 for b in blk) + prefix)
+    outer = hashlib.sha512(bytes(b ^ 0x5c for b in blk))
+
+    def f(suffix):
+        i = inner.copy()
+        i.update(suffix)
+        o = outer.copy()
+        o.update(i.digest())
+        return o.digest()
+    return f
+
+
+def find_child_zero_bytes(rng, c, kb, cc, pub, hardened, zero_bytes, what, budget):
+    """first index (from a random start, hardened or not) at which the CHILD PRIVATE KEY (what="child") or the HMAC left half IL (what="il")
+    of the parent (kb, cc) has at least `zero_bytes` leading zero bytes, computed with hashlib only from the BIP-32 formula
+    child = (IL + k_par) mod n, IL = HMAC-SHA512(cc, (00 || k_par | compressed pub) || ser32(i))[:32].  None when the budget runs out or the
+    index space ends.  (IL >= n, probability 2^-32 / 2^-128, makes the child the next one in the retry chain on P-256 and invalid on secp256k1;
+    such an index is simply not a hit.)"""
+    import hmac, hashlib
+    n, k = ORDER[c], int.from_bytes(kb, "big")
+    lim = 1 << (8 * (32 - zero_bytes))
+    f = hmac512_stream(cc, (b"\x00" + kb) if hardened else pub)
+    base = 2**31 if hardened else 0
+    start = rng.randrange(0, 2**31 - budget)
+    fb = int.from_bytes
+    for j in range(start, start + budget):
+        il = fb(f((base + j).to_bytes(4, "big"))[:32], "big")
+        if il >= n or il == 0:
+            continue
+        v = il if what == "il" else (il + k) % n
+        if v < lim and v != 0:
+            idx = base + j
+            # the hit is confirmed with the one-shot library-independent HMAC before it is used
+            d = hmac.new(cc, ((b"\x00" + kb) if hardened else pub) + idx.to_bytes(4, "big"), hashlib.sha512).digest()
+            if fb(d[:32], "big") == il:
+                return idx
+    return None
+
+
+def ckd_pub_ref(c, pub, cc, idx):
+    """reference non-hardened public child (compressed key, chain code) of an ECDSA parent, from the BIP-32 / SLIP-0010 text with hmac and
+    the curve libraries called directly (coincurve for secp256k1, python-ecdsa for P-256), never through bip_utils:
+    I = HMAC-SHA512(cc, pub || ser32(i)); K_child = K_par + IL*G; c_child = IR; IL >= n or the point at infinity: secp256k1 -> None (the child
+    is invalid), P-256 -> I = HMAC-SHA512(cc, 01 || IR || ser32(i)) and again (SLIP-0010)."""
+    import hmac, hashlib
+    assert idx < 2**31 and c in ORDER
+    n = ORDER[c]
+    d = hmac.new(cc, pub + idx.to_bytes(4, "big"), hashlib.sha512).digest()
+    for _ in range(64):
+        il = int.from_bytes(d[:32], "big")
+        child = None
+        if 0 < il < n:
+            if c == "secp256k1":
+                import coincurve
+                try:
+                    child = coincurve.PublicKey(pub).add(d[:32]).format(compressed=True)
+                except ValueError:
+                    child = None
+            else:
+                from ecdsa import NIST256p, VerifyingKey
+                from ecdsa.ellipticcurve import INFINITY
+                pt = VerifyingKey.from_string(pub, curve=NIST256p).pubkey.point + NIST256p.generator * il
+                if pt != INFINITY:
+                    child = bytes([2 + (int(pt.y()) & 1)]) + int(pt.x()).to_bytes(32, "big")
+        if child is not None:
+            return child, d[32:]
+        if c == "secp256k1":
+            return None
+        d = hmac.new(cc, b"\x01" + d[32:] + idx.to_bytes(4, "big"), hashlib.sha512).digest()
+    return None
+
+
+def both_curves_parent(rng, right, tries=64):
+    """a private key of curve `right` (secp256k1 / nist256p1) whose 33 compressed public-key bytes are ALSO a valid key of the other ECDSA
+    curve (about every second key): the same bytes, e.g. the same xpub string — both classes print the same default version bytes — can
+    then be loaded as a watch-only parent by either class.  Validity is asked from the public key classes.  -> (private key bytes, pub bytes)"""
+    from bip_utils import Secp256k1PublicKey, Nist256p1PublicKey
+    other_cls = Nist256p1PublicKey if right == "secp256k1" else Secp256k1PublicKey
+    for _ in range(tries):
+        kb = rng.randrange(1, ORDER[right]).to_bytes(32, "big")
+        pub = CLS[right].FromPrivateKey(kb).PublicKey().RawCompressed().ToBytes()
+        if other_cls.IsValidBytes(pub):
+            return kb, pub
+    return None
+
+
 def rand_seed(rng):
     ln = rng.choice([16, 16, 32, 32, 64, 64, 17, 33, 80, rng.randrange(16, 81)])
     return bytes(rng.randrange(256) for _ in range(ln))
